@@ -158,7 +158,9 @@ entry("blake.blake.Blake", t=1.6e-4, pts=interval(0.12, 1.0),
 # ----------------------------------------------------------------------------------------------- burn-time solvers
 _XY = lambda cfg: ("position_x", "position_y", "position_z")[:cfg.get("geometry", 2)]
 _G = lambda cfg: cfg.get("geometry", 2)
-entry("kenamond.kenamond1.Kenamond1", ndim=_G, variants=[{"geometry": 3, "x_d": (0.0, 0.0, 0.0)}], t=0.0,
+# detonators off the origin / off the z = 0 plane too: a position field returned relative to the detonator is then visible (S4-C05-2)
+entry("kenamond.kenamond1.Kenamond1", ndim=_G, variants=[{"geometry": 3, "x_d": (0.0, 0.0, 0.0)}, {"geometry": 3, "x_d": (0.5, -0.3, 0.7)},
+                                                         {"x_d": (0.5, -0.3)}], t=0.0,
       pts=polar(0.5, 6.0, 0.1, 6.0, _G), pos=_XY, names=("burntime",))
 entry("kenamond.kenamond2.Kenamond2", ndim=_G, variants=[{"geometry": 3}], t=0.0, pts=polar(0.5, 12.0, 0.1, 6.0, _G),
       pos=_XY, names=("burntime",))
